@@ -249,6 +249,8 @@ MCGov(n) == "GovSchedule" \in NextKinds /\ Cardinality(pending) < 2 /\ GovSchedu
 MCResubmit(i) == "Resubmit" \in NextKinds /\ ndel < MaxDeliver /\ (SimSample = 0 \/ RandomElement(1..3) = 1)
                  /\ Deliver(delivered[i].tx) /\ ndel' = ndel + 1 /\ HistNext /\ path' = Append(path, act')
 
+MCNoise(k, tx) == "Noise" \in NextKinds /\ (SimSample = 0 \/ RandomElement(1..6) = 1) /\ Noise(k, tx) /\ UNCHANGED ndel /\ HistNext /\ path' = Append(path, act')
+
 MCRedeliver(i) == "Redeliver" \in NextKinds /\ ndel < MaxDeliver /\ (FailKeep = 1 \/ RandomElement(1..FailKeep) = 1) /\ Redeliver(delivered[i], i) /\ ndel' = ndel + 1 /\ HistNext /\ path' = Append(path, act')
 
 \* simulation only: keeps a behaviour going when the random filters above disabled everything else (dropped before replay)
@@ -258,6 +260,7 @@ Next ==
     \/ MCNoop
     \/ \E i \in DOMAIN delivered : MCRedeliver(i)
     \/ \E i \in DOMAIN delivered : MCResubmit(i)
+    \/ \E k \in {"check", "recheck", "simulate"} : \E tx \in Txs : MCNoise(k, tx)
     \/ \E tx \in Txs : MCDeliver(tx)
     \/ MCEndBlock
     \/ \E n \in GovAmts : MCGov(n)
